@@ -218,6 +218,10 @@ pub fn check(case: &Case, w: usize) -> CheckResult {
         env.write_raw_config(&bytes);
         let got = observe(&mut env, &apis);
         for (i, api) in apis.iter().enumerate() {
+            if got[i].0.is_none() {
+                // killed by the harness's own watchdog (or by a signal): says nothing about the property
+                return inconclusive(format!("`{}` did not end by itself (time-out of the harness)", api.join(" ")));
+            }
             if got[i].0 != reference[i].0 || got[i].1 != reference[i].1 {
                 let sig = if bytes.len() > 8192 { "c18.differs.large" } else { "c18.differs" };
                 return viol_obs(
@@ -396,7 +400,9 @@ pub fn strategy_inproc() -> impl Strategy<Value = Case> {
 pub fn inproc_value(cfg: &ConfigSpec) -> Value {
     let mut c = cfg.clone();
     c.lock_port = Some(20001);
-    c.log_port = Some(20002);
+    // (nothing binds here: in a fifth of the values both servers are given the same address,
+    // which a configuration may say)
+    c.log_port = Some(if cfg.targets.len() % 5 == 2 { 20001 } else { 20002 });
     let mut value = c.to_value();
     if cfg.sequences.contains_key("check") {
         enrich(&mut value);
